@@ -39,6 +39,10 @@ def build_tree(top):
     mk("tmp_dmd_prop", "chM/tmp.dmd_properties.h5")
     mk("bad_subdir_rf", "chR/2014-03-09_12-30-00/rf@%d.000.h5" % TS)
     mk("short_subdir_md", "chM/2014-03-09T12-30/metadata@%d.h5" % TS)
+    # directories whose names only begin like a time-stamped subdirectory (an operator's copies)
+    mk("bak_subdir_rf", "chR/%s.bak/rf@%d.000.h5" % (sd, TS))
+    mk("old_subdir_md", "chM/%s_old/metadata@%d.h5" % (sd, TS))
+    mk("longer_subdir_rf", "chR/%s5/rf@%d.000.h5" % (sd, TS))
     mk("bad_ts_rf", "chR/%s/rf@%d.00.h5" % (sd, TS))
     mk("bad_ts_rf2", "chR/%s/rf@abc.000.h5" % sd)
     mk("bad_ts_md", "chM/%s/metadata@.h5" % sd)
